@@ -7,6 +7,7 @@
  *   case <name> / synth <desc> / pre_restrict <set> <flags> / misc <gp> <name> /
  *   mem <numaidx> <bytes> / subtype <numaidx> <word> / info <numaidx> <name> <value> / osindex <gp> <os> /
  *   env HWLOC_MEMTIERS...=<value> (before synth) / include_disallowed (before synth) /
+ *   topoflag no_memattrs|no_distances|no_cpukinds ... (before synth) /
  *   xmlfile <path> (instead of synth; "@REPO@" = $HWV_REPO) / show / start / <ops> / end
  *   extra op: allow <cpuset|-> <nodeset|-> <flags>  (hwloc_topology_allow)
  *   extra op: xmlt [HWLOC_MEMTIERS...=<value>]...  (XML round trip with these variables set during the reload);
@@ -29,6 +30,7 @@
 
 static hwloc_topology_t topo;
 static int started;
+static unsigned long extra_topoflags; /* header line topoflag no_memattrs|no_distances|no_cpukinds ... */
 static int incl_disallowed;   /* header line include_disallowed: HWLOC_TOPOLOGY_FLAG_INCLUDE_DISALLOWED on every load of this case */
 static char casename[256];
 
@@ -553,12 +555,24 @@ static void header_line(char *line)
     rc = hwloc_topology_init(&topo);
     if (rc == 0) {
       rc = hwloc_topology_set_type_filter(topo, HWLOC_OBJ_MISC, HWLOC_TYPE_FILTER_KEEP_ALL);
-      if (rc == 0 && incl_disallowed) rc = hwloc_topology_set_flags(topo, HWLOC_TOPOLOGY_FLAG_INCLUDE_DISALLOWED);
+      if (rc == 0 && (incl_disallowed || extra_topoflags)) rc = hwloc_topology_set_flags(topo, (incl_disallowed ? HWLOC_TOPOLOGY_FLAG_INCLUDE_DISALLOWED : 0) | extra_topoflags);
       if (rc == 0) rc = hwloc_topology_set_synthetic(topo, line + 6);
       if (rc == 0) rc = hwloc_topology_load(topo);
       if (rc < 0) { hwloc_topology_destroy(topo); topo = NULL; }
     } else topo = NULL;
     OUT("P synth rc=%d\n", rc < 0 ? -1 : 0);
+  } else if (!strncmp(line, "topoflag ", 9)) {
+    int ok = 1; char *w = line + 9;
+    while (w && *w) {
+      char *sp = strchr(w, ' ');
+      if (sp) *sp = 0;
+      if (!strcmp(w, "no_memattrs")) extra_topoflags |= HWLOC_TOPOLOGY_FLAG_NO_MEMATTRS;
+      else if (!strcmp(w, "no_distances")) extra_topoflags |= HWLOC_TOPOLOGY_FLAG_NO_DISTANCES;
+      else if (!strcmp(w, "no_cpukinds")) extra_topoflags |= HWLOC_TOPOLOGY_FLAG_NO_CPUKINDS;
+      else ok = 0;
+      w = sp ? sp + 1 : NULL;
+    }
+    OUT("P topoflag rc=%d\n", ok ? 0 : -1);
   } else if (!strcmp(line, "include_disallowed")) {
     incl_disallowed = 1;
     OUT("P include_disallowed rc=0\n");
@@ -571,7 +585,7 @@ static void header_line(char *line)
     rc = hwloc_topology_init(&topo);
     if (rc == 0) {
       rc = hwloc_topology_set_type_filter(topo, HWLOC_OBJ_MISC, HWLOC_TYPE_FILTER_KEEP_ALL);
-      if (rc == 0 && incl_disallowed) rc = hwloc_topology_set_flags(topo, HWLOC_TOPOLOGY_FLAG_INCLUDE_DISALLOWED);
+      if (rc == 0 && (incl_disallowed || extra_topoflags)) rc = hwloc_topology_set_flags(topo, (incl_disallowed ? HWLOC_TOPOLOGY_FLAG_INCLUDE_DISALLOWED : 0) | extra_topoflags);
       if (rc == 0) rc = hwloc_topology_set_xml(topo, path);
       if (rc == 0) rc = hwloc_topology_load(topo);
       if (rc < 0) { hwloc_topology_destroy(topo); topo = NULL; }
@@ -643,7 +657,7 @@ int main(void)
     if (!strncmp(line, "case ", 5)) {
       if (topo) { hwloc_topology_destroy(topo); topo = NULL; }
       pop_env(0);
-      incl_disallowed = 0;
+      incl_disallowed = 0; extra_topoflags = 0;
       snprintf(casename, sizeof casename, "%s", line + 5);
       incase = 1; started = 0;
       OUT("P case %s\n", casename);
